@@ -470,6 +470,12 @@ class Choice(OrderIndicator):
                             result.append(value)
                             break
                         elif element.name in value:
+                            unexpected = set(value) - {element.name}
+                            if unexpected:
+                                raise TypeError(
+                                    "%s() got an unexpected keyword argument %r."
+                                    % (self, sorted(unexpected)[0])
+                                )
                             choice_value = value.get(element.name)
                             result.append({element.name: choice_value})
                             break
